@@ -4028,6 +4028,10 @@ impl CanonicalizeContext {
 	
 		// Reached the end -- force reduction of what's left on the stack
 		self.reduce_stack(&mut parse_stack, LEFT_FENCEPOST.priority);
+		while parse_stack.len() > 1 {
+			// rows that were started for an unmatched fence never got an operator and can't be closed by priority
+			self.reduce_stack_one_time(&mut parse_stack);
+		}
 	
 		// We essentially have 'terminator( mrow terminator)'
 		//   in other words, we have an extra mrow with one child due to the initial start -- remove it
